@@ -102,7 +102,8 @@ def _dense_vdi(rng, nblocks: int, bs: int, tag: int):
     for i, p in special:
         sf.put(data_offset + p * bs, PatternGen(layer, i * spb, spb))
     sf.size = data_offset + nblocks * bs
-    return sf, layer, {"size": size, "metadata_bytes": 512 + 4 * nblocks, "unit": bs, "hot": [0, (head - 1) * bs, head * bs, (nblocks - 1) * bs, (1 << 32), (1 << 41)]}
+    return sf, layer, {"size": size, "metadata_bytes": 512 + 4 * nblocks, "unit": bs, "hot": [0, (head - 1) * bs, head * bs, (nblocks - 1) * bs, (1 << 32), (1 << 41)],
+                       "dense": (bs, 40 * bs)}
 
 
 def _dense_hds(rng, version: int, ncl: int, ms: int, tag: int):
@@ -136,7 +137,8 @@ def _dense_hds(rng, version: int, ncl: int, ms: int, tag: int):
     for i, p in special:
         sf.put((first + p) * cs, PatternGen(layer, i * ms, ms))
     sf.size = (first + ncl) * cs
-    return sf, layer, {"size": size, "metadata_bytes": 64 + 4 * ncl, "unit": cs, "hot": [0, (head - 1) * cs, head * cs, size - cs, 1 << 32, min(1 << 41, size - cs)]}
+    return sf, layer, {"size": size, "metadata_bytes": 64 + 4 * ncl, "unit": cs, "hot": [0, (head - 1) * cs, head * cs, size - cs, 1 << 32, min(1 << 41, size - cs)],
+                       "dense": (cs, 40 * cs)}
 
 
 def build(fmt: str, rng):
@@ -190,7 +192,8 @@ def build(fmt: str, rng):
         kinds.update({g: "N" for g in range(2, 40)})
         view = wq.make_view(rng, size=size, cluster_bits=cb, kinds=kinds, extl2=False, tag=tag)
         img, _, meta = wq.build(rng, cluster_bits=cb, size=size, views=[view], version=3, placement="shuffle", far_base=rng.choice([1 << 32, 1 << 40]), far_frac=0.7, tuned_frac=0.0)
-        info = {"size": size, "metadata_bytes": meta["metadata_bytes"], "unit": cs, "hot": [g * cs for g in sorted(hot_cl)], "max_off": meta["max_host_off"]}
+        info = {"size": size, "metadata_bytes": meta["metadata_bytes"], "unit": cs, "hot": [g * cs for g in sorted(hot_cl)], "max_off": meta["max_host_off"],
+                "dense": (2 * cs, 38 * cs)}
         return (lambda fh: QCow2(fh)), img, Model(size, [view.layer]), info
     if fmt == "qcow2-snap":
         # internal snapshots of a 20 TiB image whose snapshot table, L1/L2 tables and clusters all sit beyond 4 GiB
@@ -245,7 +248,7 @@ def build(fmt: str, rng):
         img, _, meta = wq.build(rng, cluster_bits=cb, size=size, views=[view], version=3, placement="shuffle",
                                 far_base=rng.choice([1 << 32, 1 << 40, 1 << 45]), far_frac=0.7, tuned_frac=0.0)
         info = {"size": size, "metadata_bytes": meta["metadata_bytes"], "unit": cs, "hot": [g * cs for g in sorted(hot_cl) if 0 <= g < ncl],
-                "max_off": meta["max_host_off"], "compressed_unit": compressed_unit}
+                "max_off": meta["max_host_off"], "compressed_unit": compressed_unit, "dense": (40 * cs, (run - 40) * cs) if cb == 16 else (2 * cs, 40 * cs)}
         return (lambda fh: QCow2(fh)), img, Model(size, [view.layer]), info
     if fmt in ("vhdx", "vhdx-4k"):
         from dissect.hypervisor.disk.vhdx import VHDX
@@ -270,6 +273,7 @@ def build(fmt: str, rng):
     if fmt.startswith("vmdk"):
         from dissect.hypervisor.disk.vmdk import VMDK
 
+        dense = None
         if fmt == "vmdk-hosted":
             grain = rng.choice([2048, 128])
             ngte = 512
@@ -282,6 +286,7 @@ def build(fmt: str, rng):
             sf, layer, meta = wvmdk.build_hosted(rng, capacity=cap, grain=grain, ngte=ngte, states=st, placement="shuffle", tag=tag,
                                                  far_sector=0xFFFFFFFF - 400 * grain)
             hot = [g * grain * SECTOR for g in sorted(hot_g)]
+            dense = (2 * grain * SECTOR, 198 * grain * SECTOR)
         elif fmt == "vmdk-sesparse":
             grain, gts = 8, 64
             cap = (1 << 33) + rng.randrange(1, 1 << 20)
@@ -293,6 +298,7 @@ def build(fmt: str, rng):
             sf, layer, meta = wvmdk.build_sesparse(rng, capacity=cap, grain=grain, gt_sectors=gts, states=st, placement="shuffle", tag=tag, big_index=True, huge_index=True)
             # push some grain indices beyond 2^31 (file offsets beyond 2^44)
             hot = [g * grain * SECTOR for g in sorted(hot_g)]
+            dense = (2 * grain * SECTOR, 298 * grain * SECTOR)
         elif fmt == "vmdk-stream":
             grain, ngte = 128, 512
             cap = 128 * 300 + 17
@@ -304,7 +310,7 @@ def build(fmt: str, rng):
             sf, layer, meta = wvmdk.build_flat(rng, nsectors=cap, tag=tag)
             hot = [0, 1 << 32, 1 << 41, cap * SECTOR - 5000]
         info = {"size": meta["size"], "metadata_bytes": meta["metadata_bytes"], "unit": grain * SECTOR if fmt != "vmdk-flat" else SECTOR,
-                "hot": hot, "max_off": sf.end, "compressed_unit": compressed_unit}
+                "hot": hot, "max_off": sf.end, "compressed_unit": compressed_unit, "dense": dense}
         return (lambda fh: VMDK(fh)), sf, Model(meta["size"], [layer]), info
     if fmt == "vhd-fixed":
         from dissect.hypervisor.disk.vhd import VHD
@@ -328,7 +334,8 @@ def build(fmt: str, rng):
                                              tail_cut_sectors=rng.choice([0, rng.randrange(0, 4096)]), far_sector=0xFFFFFFFF - 70 * 4200,
                                              # the dynamic header (and with it the table) may itself sit beyond 4 GiB
                                              header_off=rng.choice([512, 6 << 30, (1 << 40) + 512]), creator=rng.choice([None, b"vpc ", b"vpc ", b"win "]))
-        info = {"size": meta["size"], "metadata_bytes": meta["metadata_bytes"], "unit": bs, "hot": [b * bs for b in sorted(hot_b)], "max_off": sf.end}
+        info = {"size": meta["size"], "metadata_bytes": meta["metadata_bytes"], "unit": bs, "hot": [b * bs for b in sorted(hot_b)], "max_off": sf.end,
+                "dense": (2 * bs, 58 * bs)}
         return (lambda fh: VHD(fh)), sf, Model(meta["size"], [layer]), info
     if fmt == "vdi":
         from dissect.hypervisor.disk.vdi import VDI
@@ -371,6 +378,11 @@ def run(case: dict, ctx) -> dict:
             continue
         a = max(0, h - rng.choice([0, 0, 1, 511, 512, 4097]))
         reqs.append((a, rng.choice([1, 512, 513, 4096, 20000, 70000])))
+        if h >= 16 * buf and rng.random() < 0.5:
+            # one request that starts on a buffer boundary a little before the hot unit (usually in a hole of the mapping tables) and
+            # runs into it: the stream layer hands such a request down in one piece
+            k_ = rng.choice([1, 2, 8])
+            reqs.append(((h // buf - k_) * buf, k_ * buf + rng.choice([512, 20000, 70000])))
     reqs.append((max(0, size - 70000), 90000))
     reqs.append((rng.randrange(size), 512))
     cu = info.get("compressed_unit", 0)
@@ -382,6 +394,12 @@ def run(case: dict, ctx) -> dict:
         o2_ = min(max(base_u, off + rng.choice([-buf, buf, 2 * buf, 0])), min(base_u + unit, size) - 1)
         o2_ = max(0, o2_)
         second.append((o2_, max(1, min(rng.choice([1, 512, 700, 4096]), min(base_u + unit, size) - o2_))))
+    # one longer request over a run of stored units, issued twice: the second time every table it needs has been seen
+    dense = info.get("dense")
+    if dense:
+        d_off = dense[0] + rng.randrange(0, unit)
+        d_len = min(dense[1] - unit, rng.choice([600_000, 1_000_000, 1_100_000]))
+        second = second + [(d_off, d_len), (d_off, d_len)]
     allreqs = reqs + second
     budget = int(2.2 * info["metadata_bytes"]) + sum(8 * (min(n, size - o) + 2 * buf) + 2 * cu for o, n in allreqs) + (128 << 10)
     fh = ProxyFile(sf.open(), budget=budget, name=info.get("name"))
@@ -411,6 +429,11 @@ def run(case: dict, ctx) -> dict:
             if idx >= len(reqs):
                 # tables for this unit were loaded by the first pass: the cost must now be proportional to the request
                 allowed = 8 * (len(exp) + 2 * buf) + 2 * cu + 4096
+                if dense and idx == len(allreqs) - 1:
+                    # the repeated long request: close to the bytes asked for
+                    allowed = 2 * len(exp) + 2 * cu + (64 << 10)
+                    cnt["repeated_long_requests"] = 1
+                    res["sets"]["repeated_long_request_cost_ratio"] = [f"{case['fmt']}:{per_req[-1] / max(1, len(exp)):.2f}"]
                 cnt["second_pass_requests"] = cnt.get("second_pass_requests", 0) + 1
                 if per_req[-1] > allowed:
                     res["viol"].append({"what": "file I/O of a small request inside an already mapped unit is not proportional to the request",
